@@ -112,6 +112,14 @@ def malformations(typ):
     add('scope-not-a-map', lambda b: edit_asb(b, typ, lambda a: a.update(params=[p for p in a['params'] if p[0] != 5] + [(5, [0, 1])])))
     add('additional-headers-duplicated', lambda b: edit_asb(b, typ, lambda a: a.update(params=a['params'] + [(3, C.dumps({1: 5})), (4, C.dumps({1: 5}))])))
     add('target-content-altered', lambda b: b['blocks'][-1].update(data=b['blocks'][-1]['data'][:-1] + b'\x00'))
+
+    def altered_with_old_content_attached(b):
+        # what a key-less node on the path can do: move the protected content into the payload
+        # slot of the COSE message and put other octets into the target block
+        old = bytes(b['blocks'][-1]['data'])
+        edit_msg(b, typ, lambda m: m.__setitem__(2, old))
+        b['blocks'][-1].update(data=old[:-1] + bytes([old[-1] ^ 0x20]) if old else b'x')
+    add('target-altered-old-content-attached', altered_with_old_content_attached)
     add('security-source-altered', lambda b: edit_asb(b, typ, lambda a: a.update(source='dtn://evil/')))
     if typ == B.T_BIB:
         add('tag-truncated', lambda b: edit_msg(b, typ, lambda m: m.__setitem__(3, m[3][:-1])))
